@@ -153,8 +153,10 @@ class Pseudo2NetCDF:
                 pvar = pvar[...]
             nvar[...] = pvar
         elif isinstance(pvar[...], MaskedArray):
-            nvar[:] = pvar[...].filled(getattr(nvar, 'fill_value', getattr(
-                nvar, '_FillValue', getattr(pvar, 'missing_value', -9999))))
+            # masked cells must hold the fill value the disk variable was
+            # created with, otherwise they are not masked when read back
+            nvar[:] = pvar[...].filled(getattr(nvar, '_FillValue', getattr(
+                nvar, 'fill_value', getattr(pvar, 'missing_value', -9999))))
         else:
             nvar[:] = pvar[...]
 
